@@ -44,7 +44,7 @@ def flat(ts):
     return torch.cat([t.reshape(-1) for t in ts if t is not None and t.dim() > 0])
 
 
-def oracle_fwd_grad(ck, filt, J, shape, o, ri, skm, inm, named, tol, force=None):
+def oracle_fwd_grad(ck, filt, J, shape, o, ri, skm, inm, named, tol, force=None, chan=1):
     from pytorch_wavelets.dtcwt.transform2d import DTCWTForward as M
     rng = ck.rng
     bits = lambda mask: [bool((mask >> j) & 1) for j in range(J)]
@@ -52,20 +52,20 @@ def oracle_fwd_grad(ck, filt, J, shape, o, ri, skm, inm, named, tol, force=None)
     mod = _module(M, (filt[0], filt[1]), tuple(filt[2:]), np.concatenate([np.ravel(f) for f in filt] + [np.array(shape, dtype=float)]), force,
                   J=J, skip_hps=bits(skm), include_scale=bits(inm), o_dim=o, ri_dim=ri)
     desc = ('[module state adopted: %s] ' % force if force else '') + 'DTCWTForward gradient J=%d shape=%s layout=(%d,%d) skip=%s include_scale=%s filters=%s' % (J, tuple(shape), o, ri, bin(skm), bin(inm), named)
-    replay = {'oracle': 'fwd_grad', 'filt': [arr_json(f) for f in filt], 'J': J, 'shape': list(shape), 'o': o, 'ri': ri, 'skm': skm, 'inm': inm, 'named': named, 'tol': tol, 'force': force}
+    replay = {'oracle': 'fwd_grad', 'filt': [arr_json(f) for f in filt], 'J': J, 'shape': list(shape), 'o': o, 'ri': ri, 'skm': skm, 'inm': inm, 'named': named, 'tol': tol, 'force': force, 'chan': chan}
 
     def outs_of(x):
         yl, yh = mod(x)
         yl = list(yl) if isinstance(yl, (list, tuple)) else [yl]
         return [t for t in yl + list(yh) if t.dim() > 0]
-    n_in = int(np.prod(shape))
+    n_in = chan * int(np.prod(shape))
     with torch.no_grad():
         cols = []
         for k in range(n_in):
             e = torch.zeros(n_in); e[k] = 1
-            cols.append(flat(outs_of(e.reshape(1, 1, *shape))))
+            cols.append(flat(outs_of(e.reshape(1, chan, *shape))))
         Jm = torch.stack(cols)
-    x = T(gen.int_tensor(rng, (1, 1) + tuple(shape), 3)).requires_grad_(True)
+    x = T(gen.int_tensor(rng, (1, chan) + tuple(shape), 3)).requires_grad_(True)
     outs = outs_of(x)
     from ..gradcheck import pull_variants
     err = 0.0
@@ -145,6 +145,9 @@ def oracle(ck, extended):
         ff = structured_filters(rng); fi = structured_filters(rng)
         rt.guard(ck, oracle_fwd_grad, ck, ff, 2, (8, 6), 2, -1, 0, 0, 'structured integer filters', 1e-9, force)
         rt.guard(ck, oracle_inv_grad, ck, fi, 2, 8, 6, 2, -1, 7, 'structured integer filters', 1e-9, force)
+    # several channels (the Jacobian over all of them): nothing crosses channels in the backward passes either
+    for (J_, shp, ch) in [(2, (6, 4), 2), (1, (4, 6), 3)]:
+        rt.guard(ck, oracle_fwd_grad, ck, structured_filters(rng), J_, shp, 2, -1, 0, 0, 'structured integer filters', 1e-9, None, ch)
     n = (16 if q else 120) * (2 if extended else 1)
     for it in range(n):
         J = rng.randint(1, 2 if q else 3)
@@ -219,7 +222,7 @@ def replay(ck, path):
         return 1
     filt = [arr_from(a) for a in f['filt']]
     if f['oracle'] == 'fwd_grad':
-        oracle_fwd_grad(ck, filt, f['J'], tuple(f['shape']), f['o'], f['ri'], f['skm'], f['inm'], f['named'], f['tol'], f.get('force'))
+        oracle_fwd_grad(ck, filt, f['J'], tuple(f['shape']), f['o'], f['ri'], f['skm'], f['inm'], f['named'], f['tol'], f.get('force'), f.get('chan', 1))
     else:
         oracle_inv_grad(ck, filt, f['J'], f['H'], f['W'], f['o'], f['ri'], f['mask'], f['named'], f['tol'], f.get('force'))
     for fl in ck.failures:
